@@ -238,7 +238,9 @@ class PolyChordOptimizer(Optimizer):
                 data = np.loadtxt(os.path.join(
                     self.dir_polychord, 'clusters/1-_{0}.txt'.format(midx+1)))
                 # find maximum likelihood index
-                mL_idx = np.where(data[:, 1] == np.min(data[:, 1]))
+                # (a scalar row index: indexing with np.where's tuple gives
+                # (1, 1) arrays that cannot be written into the model)
+                mL_idx = np.argmin(data[:, 1])
                 stats['modes'][midx]['maximum a posterior'] = {}
                 stats['modes'][midx]['mean'] = {}
                 stats['modes'][midx]['sigma'] = {}
